@@ -547,7 +547,10 @@ def validate_path(unit, ctx, res, rng):
     for label, l, r in ctx.obligations:
         nodes.append(l)
     try:
-        val = E.evaluate(nodes, env)
+        if unit.opts.get('exact_eval'):
+            val = {k: float(v) for k, v in E.evaluate(nodes, env, exact='hybrid').items()}
+        else:
+            val = E.evaluate(nodes, env)
     except (ValueError, ZeroDivisionError, OverflowError, KeyError) as e:
         res['validation_skipped'] += 1
         return
